@@ -37,8 +37,8 @@ class get_symbol:
     ghost = {"$o": "self.header.sh_offset + n * self.header.sh_entsize"}
     ensures = ["result.entry == P('Elf_Sym', self.stream.B, $o)",
                "result.name == secname(self.stringtable, result.entry.st_name)"]
-    raises = {"ELFParseError": "$o < 2**63 and $o + SZ('Elf_Sym', self.elffile.elfclass) > len(self.stream.B)",
-              "OverflowError": "$o >= 2**63 or ($o + SZ('Elf_Sym', self.elffile.elfclass) <= len(self.stream.B) and"
+    raises = {"ELFParseError": "$o + SZ('Elf_Sym', self.elffile.elfclass) > len(self.stream.B)",
+              "OverflowError": "($o + SZ('Elf_Sym', self.elffile.elfclass) <= len(self.stream.B) and"
                                " self.stringtable.header.sh_offset + P('Elf_Sym', self.stream.B, $o).st_name >= 2**63)"}
 
 
@@ -72,7 +72,7 @@ class get_section_index:
     returns = Int
     ghost = {"$o": "self.header.sh_offset + n * self.header.sh_entsize"}
     ensures = ["result == P('Elf_word', self.stream.B, $o)"]
-    raises = {"ELFParseError": "$o < 2**63 and $o + 4 > len(self.stream.B)", "OverflowError": "$o >= 2**63"}
+    raises = {"ELFParseError": "$o + 4 > len(self.stream.B)"}
 
 
 SyminfoT = SectionT('SUNWSyminfoTableSection', symboltable=SymTabT)
